@@ -135,9 +135,9 @@ def client_requests(reg):
     return out
 
 
-def serve(reg, datagrams):
+def serve(reg, datagrams, logger=None, survive=True):
     """run the live `RegistryServer._work` over the datagrams (scripted `_recv` / `_send`); returns the reply to each
-    (None = none); raises Inexpressible if the loop does not survive"""
+    (None = none); raises Inexpressible if the loop does not survive (unless survive=False: then returns None)"""
     from rpyc.core import brine
 
     class Probe(reg.RegistryServer):
@@ -160,11 +160,13 @@ def serve(reg, datagrams):
 
         def close(self):
             pass
-    srv = Probe(L(), logger=_NullLogger())
+    srv = Probe(L(), logger=logger or _NullLogger())
     srv.i, srv.replies, srv.active = 0, {}, True
     try:
         srv._work()
     except Exception as ex:  # noqa
+        if not survive:
+            return None
         raise Inexpressible("RegistryServer._work does not run over scripted _recv/_send: %r" % (ex,))
     return [srv.replies.get(k) for k in range(len(datagrams))]
 
@@ -209,6 +211,37 @@ def observe_protocol(reg):
         # (a command that fails to acknowledge at all is a matter for the correspondence and the oracle, not for the translator)
         raise Inexpressible("register / unregister are acknowledged with %r / %r, not one text" % (acks[0], acks[1]))
     return magic, texts[0], reqs
+
+
+HASH_SAMPLES = [("None", None), ("NotImpl", NotImplemented), ("Ellipsis", Ellipsis), ("Bool", True), ("Int", 7), ("Float", 1.5),
+                ("Complex", 1j), ("Bytes", b"x"), ("Str", "x"), ("Tuple", ()), ("Fset", frozenset()), ("Slice", slice(1, 2, 3))]
+
+
+def hashability():
+    """is a value of each brine type usable as a dict key on the running interpreter (slice: from 3.12 on)"""
+    out = []
+    for name, v in HASH_SAMPLES:
+        try:
+            hash(v)
+            out.append((name, True))
+        except TypeError:
+            out.append((name, False))
+    return out
+
+
+def real_logger_survives(reg, magic):
+    """does the live `_work` survive its two warning paths (wrong magic, unknown command) with a real
+    logging.Logger (`Logger.warn` is deprecated and gone from 3.13 on; both calls sit outside every try)"""
+    import logging
+    import warnings
+    from rpyc.core import brine
+    lg = logging.Logger("rpyc-verif-gen-probe")
+    lg.addHandler(logging.NullHandler())
+    with warnings.catch_warnings():
+        warnings.simplefilter("ignore")
+        r = serve(reg, [brine.dump((magic + "?", "QUERY", ("x",))), brine.dump((magic, "no-such-command", ())),
+                        brine.dump((magic, 5, ()))], logger=lg, survive=False)
+    return r is not None
 
 
 def command_table(reg):
@@ -302,6 +335,17 @@ def gen_registry():
     L += ["", "/-- (magic, command) of what the six real client methods send (observed on a recording socket) -/",
           "def clientRequests : List (String × String) := " + lean_list(
               sorted(set("(%s, %s)" % (lean_str(m), lean_str(c)) for _, _, m, c, _d in reqs)), 3)]
+    hs = hashability()
+    L += ["", "/-- can a value of each brine type be a dict key on the interpreter the checks run under (measured with hash()) -/"]
+    for name, ok in hs:
+        L.append("def hash%s : Bool := %s" % (name, "true" if ok else "false"))
+    L += ["def allBrineValuesHashable : Bool := " + " && ".join("hash%s" % n for n, _ in hs)]
+    import sys
+    L += ["", "/-- the interpreter the facts above were measured on -/",
+          "def interpreterVersion : String := %s" % lean_str("%d.%d.%d" % sys.version_info[:3])]
+    L += ["", "/-- does the live `_work` survive its two `logger.warn` paths (wrong magic, unknown command) with a real",
+          "logging.Logger (observed) -/",
+          "def realLoggerSurvivesWarn : Bool := %s" % ("true" if real_logger_survives(reg, magic) else "false")]
     closes = tcp_recv_closes_unreplied(reg)
     L += ["", "/-- does `TCPRegistryServer._recv` close the sockets of earlier requests that got no reply (observed by running",
           "the live method over stand-in sockets) -/",
